@@ -174,6 +174,10 @@ var c18Inputs = []moduleInput{
 		"werr/werr.go": "package werr\n\ntype Elem struct{ S string }\n\ntype E struct {\n\tInner error\n\tPath  []Elem\n}\n\nfunc (e *E) Error() string { return \"wrapped: \" + e.Inner.Error() }\nfunc (e *E) Unwrap() error { return e.Inner }\n\nfunc Wrap(err error, path ...Elem) error { return &E{err, path} }\nfunc Field(n string) Elem               { return Elem{n} }\nfunc Index(i int) Elem                  { return Elem{\"i\"} }\nfunc Key(k interface{}) Elem            { return Elem{\"k\"} }\n",
 		"p/conv.go":    "package p\n\nimport \"strconv\"\n\ntype In struct{ A string }\ntype Out struct{ A int }\n\nfunc Atoi(s string) (int, error) { return strconv.Atoi(s) }\n\n// goverter:converter\n// goverter:extend Atoi\n// goverter:wrapErrorsUsing example.org/m/werr\n// goverter:output:file ./groot/root.go\n// goverter:output:package example.org/m/p/groot\ntype Root interface {\n\tConv(s *string) (*int, error)\n}\n\n// goverter:converter\n// goverter:extend Atoi\n// goverter:wrapErrorsUsing example.org/m/werr\n// goverter:output:file ./gnest/nested.go\n// goverter:output:package example.org/m/p/gnest\ntype Nested interface {\n\tConv(s In) (Out, error)\n}\n\n// goverter:converter\n// goverter:wrapErrorsUsing example.org/m/werr\n// goverter:output:file ./gnone/none.go\n// goverter:output:package example.org/m/p/gnone\ntype NoErrors interface {\n\tConv(s In) In\n}\n"},
 		args: []string{"./p"}, wantImports: map[string][]string{"p/groot/root.go": {"example.org/m/p", "example.org/m/werr"}, "p/gnest/nested.go": {"example.org/m/p", "example.org/m/werr"}, "p/gnone/none.go": {"example.org/m/p"}}},
+	{name: "output addressed from the working directory into the package that owns the converted types (no self import)", files: map[string]string{
+		"model/model.go": "package model\n\ntype Kind int\n\nconst (\n\tKindUser Kind = iota\n\tKindAdmin\n)\n\ntype DTOKind string\n\nconst (\n\tDTOKindUser  DTOKind = \"user\"\n\tDTOKindAdmin DTOKind = \"admin\"\n)\n\ntype Person struct {\n\tName string\n\tKind Kind\n}\ntype PersonDTO struct {\n\tName string\n\tKind DTOKind\n}\n",
+		"conv/input.go":  "package conv\n\nimport \"example.org/m/model\"\n\n// goverter:converter\n// goverter:output:file @cwd/model/conv.gen.go\n// goverter:enum:unknown @error\ntype ModelConverter interface {\n\tToDTO(source model.Person) (model.PersonDTO, error)\n\t// goverter:enum:transform regex Kind(\\w+) DTOKind$1\n\tToDTOKind(source model.Kind) (model.DTOKind, error)\n}\n\n// goverter:converter\n// goverter:output:file @cwd/conv/sub/ctl.gen.go\n// goverter:enum no\ntype SubConverter interface {\n\tCopy(source model.Person) model.Person\n}\n"},
+		args: []string{"./conv"}, wantImports: map[string][]string{"model/conv.gen.go": {"fmt"}, "conv/sub/ctl.gen.go": {"example.org/m/model"}}},
 	{name: "interface converter: fmt only where wrapErrors is in effect", files: map[string]string{
 		"p/conv.go": "package p\n\nimport \"strconv\"\n\ntype In struct{ A string }\ntype Out struct{ A int }\n\nfunc Atoi(s string) (int, error) { return strconv.Atoi(s) }\n\n// goverter:converter\n// goverter:extend Atoi\n// goverter:output:file ./gen/plain.go\n// goverter:output:package example.org/m/p/gen\ntype Plain interface {\n\tConv(s In) (Out, error)\n}\n\n// goverter:converter\n// goverter:extend Atoi\n// goverter:wrapErrors\n// goverter:output:file ./genw/wrapped.go\n// goverter:output:package example.org/m/p/genw\ntype Wrapped interface {\n\tConv(s In) (Out, error)\n}\n"},
 		args: []string{"./p"}, wantImports: map[string][]string{"p/gen/plain.go": {"example.org/m/p"}, "p/genw/wrapped.go": {"example.org/m/p", "fmt"}}},
